@@ -88,16 +88,28 @@ theorem guard_total (p : List α) (sigma : List Nat) (hp : ∀ x ∈ p, 0 ≤ x)
   unfold pre
   rw [hlast, zero_add, hsplit]
 
-/-- closed form of the repaired model: pointer `j` selects `sigma[posC cmp 0 w (o + j·d)]` -/
-theorem susIdx_closed (p : List α) (k : Nat) (sigma : List Nat) (o : α) (sel : List Nat)
-    (hp : ∀ x ∈ p, 0 ≤ x) (hT : 0 < Np.sum p) (h : susIdx p k sigma o = .ok sel) :
-    let cmp := ptrCmp (α := α) (decide (o + o < Np.sum p / (k : α)))
+/-- one run of the pointer loop in exact arithmetic with interval convention `lo` (validated oracle inputs) -/
+def SusRun (p : List α) (k : Nat) (sigma : List Nat) (o : α) (lo : Bool) (sel : List Nat) : Prop :=
+  isPerm sigma p.length = true ∧ nonIncreasing (sigma.map (fun i => p.getD i 0)) = true ∧ k ≠ 0 ∧
+  (0 ≤ o ∧ o < Np.sum p / (k : α)) ∧
+  walkG (ptrCmp lo) ((Np.cumsum (sigma.map (fun i => p.getD i 0))).zip sigma)
+    ((p.filter (fun x => decide (0 < x) || decide (x < 0))).length - 1)
+    ((List.range k).map (fun (j : Nat) => o + (j : α) * (Np.sum p / (k : α)))) = some sel
+
+theorem susIdx_run (p : List α) (k : Nat) (sigma : List Nat) (o : α) (sel : List Nat) :
+    susIdx p k sigma o = .ok sel ↔ SusRun p k sigma o (decide (o + o < Np.sum p / (k : α))) sel :=
+  susIdx_ok_iff p k sigma o sel
+
+/-- closed form of a run, either convention: pointer `j` selects `sigma[posC cmp 0 w (o + j·d)]` -/
+theorem run_closed (p : List α) (k : Nat) (sigma : List Nat) (o : α) (lo : Bool) (sel : List Nat)
+    (hp : ∀ x ∈ p, 0 ≤ x) (hT : 0 < Np.sum p) (h : SusRun p k sigma o lo sel) :
+    let cmp := ptrCmp (α := α) lo
     let w := sigma.map (fun i => p.getD i 0)
     sel = ((List.range k).map (fun j : Nat => posC cmp 0 w (o + (j : α) * (Np.sum p / (k : α))))).map
             (fun q => sigma[q]?.getD 0)
     ∧ ∀ j < k, posC cmp 0 w (o + (j : α) * (Np.sum p / (k : α))) < sigma.length := by
   intro cmp w
-  obtain ⟨h1, h2, hk, ⟨ho, hod⟩, hw⟩ := (susIdx_ok_iff p k sigma o sel).mp h
+  obtain ⟨h1, h2, hk, ⟨ho, hod⟩, hw⟩ := h
   have hk' : 0 < k := Nat.pos_of_ne_zero hk
   have hd : 0 < Np.sum p / (k : α) := div_pos hT (by exact_mod_cast hk')
   obtain ⟨hlast, htot, _⟩ := guard_total p sigma hp hT h1 h2
@@ -140,19 +152,30 @@ theorem susIdx_closed (p : List α) (k : Nat) (sigma : List Nat) (o : α) (sel :
     have hwl : w.length = sigma.length := by simp [w]
     omega
 
+/-- closed form of the model: pointer `j` selects `sigma[posC cmp 0 w (o + j·d)]` -/
+theorem susIdx_closed (p : List α) (k : Nat) (sigma : List Nat) (o : α) (sel : List Nat)
+    (hp : ∀ x ∈ p, 0 ≤ x) (hT : 0 < Np.sum p) (h : susIdx p k sigma o = .ok sel) :
+    let cmp := ptrCmp (α := α) (decide (o + o < Np.sum p / (k : α)))
+    let w := sigma.map (fun i => p.getD i 0)
+    sel = ((List.range k).map (fun j : Nat => posC cmp 0 w (o + (j : α) * (Np.sum p / (k : α))))).map
+            (fun q => sigma[q]?.getD 0)
+    ∧ ∀ j < k, posC cmp 0 w (o + (j : α) * (Np.sum p / (k : α))) < sigma.length :=
+  run_closed p k sigma o _ sel hp hT ((susIdx_run p k sigma o sel).mp h)
+
 end patched
 
 section patchedFloor
 variable {α : Type} [Field α] [LinearOrder α] [IsStrictOrderedRing α] [FloorRing α]
 
-/-- **the repaired function meets the floor / ceiling guarantee for every offset in `[0, ptr_dist)`** -/
-theorem susIdx_floor_ceil_pos (p : List α) (k : Nat) (sigma : List Nat) (o : α) (sel : List Nat)
-    (hp : ∀ x ∈ p, 0 ≤ x) (hT : 0 < Np.sum p) (h : susIdx p k sigma o = .ok sel)
+/-- **floor / ceiling guarantee of a run**: right-open intervals work for every offset in `[0, ptr_dist)`,
+    right-closed ones for every strictly positive offset -/
+theorem run_floor_ceil_pos (p : List α) (k : Nat) (sigma : List Nat) (o : α) (lo : Bool) (sel : List Nat)
+    (hp : ∀ x ∈ p, 0 ≤ x) (hT : 0 < Np.sum p) (h : SusRun p k sigma o lo sel) (hlo0 : lo = false → 0 < o)
     (r : Nat) (hr : r < sigma.length) :
     (sel.count sigma[r] : ℤ) = ⌊(k : α) * p.getD sigma[r] 0 / Np.sum p⌋ ∨
     (sel.count sigma[r] : ℤ) = ⌈(k : α) * p.getD sigma[r] 0 / Np.sum p⌉ := by
-  obtain ⟨hclosed, hlt⟩ := susIdx_closed p k sigma o sel hp hT h
-  obtain ⟨h1, _, hk, ⟨ho, hod⟩, _⟩ := (susIdx_ok_iff p k sigma o sel).mp h
+  obtain ⟨hclosed, hlt⟩ := run_closed p k sigma o lo sel hp hT h
+  obtain ⟨h1, _, hk, ⟨ho, hod⟩, _⟩ := h
   have hs := sigmaFacts p sigma h1
   have hk' : 0 < k := Nat.pos_of_ne_zero hk
   have hkpos : (0 : α) < k := by exact_mod_cast hk'
@@ -161,7 +184,7 @@ theorem susIdx_floor_ceil_pos (p : List α) (k : Nat) (sigma : List Nat) (o : α
   set w := sigma.map (fun i => p.getD i 0) with hw
   have hwnn : ∀ x ∈ w, 0 ≤ x := hs.nonneg hp
   have hrw : r < w.length := by simpa [hw] using hr
-  set cmp := ptrCmp (α := α) (decide (o + o < d)) with hcmp
+  set cmp := ptrCmp (α := α) lo with hcmp
   -- count = number of pointers whose position is r
   have hcount : sel.count sigma[r]
       = ((List.range k).filter (fun j : Nat => decide (posC cmp 0 w (o + (j : α) * d) = r))).length := by
@@ -183,8 +206,8 @@ theorem susIdx_floor_ceil_pos (p : List α) (k : Nat) (sigma : List Nat) (o : α
     rw [pre_succ 0 w r hrw, hwr, hd]
     field_simp
     ring
-  by_cases hlo : o + o < d
-  · -- low offset: right-open intervals, ceilings
+  by_cases hlo : lo = true
+  · -- right-open intervals, ceilings
     have hcmp' : cmp = fun c t => decide (c ≤ t) := by
       funext c t
       simp [hcmp, ptrCmp, hlo]
@@ -197,15 +220,12 @@ theorem susIdx_floor_ceil_pos (p : List α) (k : Nat) (sigma : List Nat) (o : α
     rw [hfil, pointers_in_interval_ro o d (pre 0 w r) (pre 0 w (r + 1)) k hdpos ho hod
       (le_pre 0 w hwnn r) (pre_le_pre_succ 0 w hwnn r) hb, hq]
     exact ceil_diff _ _
-  · -- high offset (hence positive): right-closed intervals, floors
-    have hopos : 0 < o := by
-      by_contra hn
-      have : o = 0 := le_antisymm (not_lt.mp hn) ho
-      rw [this, add_zero] at hlo
-      exact hlo hdpos
+  · -- positive offset: right-closed intervals, floors
+    have hlo' : lo = false := by simpa using hlo
+    have hopos : 0 < o := hlo0 hlo'
     have hcmp' : cmp = fun c t => decide (c < t) := by
       funext c t
-      simp [hcmp, ptrCmp, hlo]
+      simp [hcmp, ptrCmp, hlo']
     have hfil : (List.range k).filter (fun j : Nat => decide (posC cmp 0 w (o + (j : α) * d) = r))
         = (List.range k).filter (fun j : Nat => pre 0 w r < o + (j : α) * d ∧ o + (j : α) * d ≤ pre 0 w (r + 1)) := by
       apply List.filter_congr
@@ -223,6 +243,23 @@ theorem susIdx_floor_ceil_pos (p : List α) (k : Nat) (sigma : List Nat) (o : α
     rw [hfil, pointers_in_interval o d (pre 0 w r) (pre 0 w (r + 1)) k hdpos hopos hod
       (le_pre 0 w hwnn r) (pre_le_pre_succ 0 w hwnn r) hb, hq]
     exact floor_diff _ _
+
+/-- **the function meets the floor / ceiling guarantee for every offset in `[0, ptr_dist)`** -/
+theorem susIdx_floor_ceil_pos (p : List α) (k : Nat) (sigma : List Nat) (o : α) (sel : List Nat)
+    (hp : ∀ x ∈ p, 0 ≤ x) (hT : 0 < Np.sum p) (h : susIdx p k sigma o = .ok sel)
+    (r : Nat) (hr : r < sigma.length) :
+    (sel.count sigma[r] : ℤ) = ⌊(k : α) * p.getD sigma[r] 0 / Np.sum p⌋ ∨
+    (sel.count sigma[r] : ℤ) = ⌈(k : α) * p.getD sigma[r] 0 / Np.sum p⌉ := by
+  have hrun := (susIdx_run p k sigma o sel).mp h
+  refine run_floor_ceil_pos p k sigma o _ sel hp hT hrun ?_ r hr
+  intro hlo
+  obtain ⟨_, _, hk, ⟨ho, _⟩, _⟩ := hrun
+  have hd : 0 < Np.sum p / (k : α) := div_pos hT (by exact_mod_cast Nat.pos_of_ne_zero hk)
+  simp only [decide_eq_false_iff_not, not_lt] at hlo
+  by_contra hn
+  have : o = 0 := le_antisymm (not_lt.mp hn) ho
+  rw [this, add_zero] at hlo
+  exact absurd hd (not_lt.mpr hlo)
 
 end patchedFloor
 
